@@ -2,9 +2,10 @@
 // pvMultShift and pvGetStepCount at function level (-fno-access-control).
 //
 // Items are (key, id) pairs; equality compares keys only, so the exact arrangement that Sort produces is
-// visible through the ids and is compared with the model cell by cell.  Hash of a key = table entry
-// (keys below the table size) or a formula family; the model driver (lean/Driver/Sort.lean) implements
-// the same tables / families / LCG.
+// visible through the ids and is compared with the model cell by cell.  Sort is called with a logging
+// iterSwapper: the number of swaps and an order-sensitive checksum of their index pairs are compared with
+// the model's swap log.  Hash of a key = table entry (keys below the table size) or a formula family; the
+// model driver (lean/Driver/Sort.lean) implements the same tables / families / LCG.
 //
 // Property-level oracle (independent of the model): after Sort the sequence is a permutation of the input,
 // hash codes are non-decreasing, equal items are contiguous, a prehashed array still holds hash(item) in
